@@ -41,6 +41,8 @@ def run(ctx, entry_tu=ENTRY_TU, scope_label='production'):
     chk.rule('E6', 'no non-returning, process-replacing or signalling API is reachable from the interposer', floor=1)
     chk.rule('E8', 'no unbounded recursion between the interposer and the real call: every call-graph cycle is a listed '
                    'bounded recursion or cut by a re-entrancy guard', floor=1)
+    chk.rule('E9', 'the stack needed between the interposer and the real call does not depend on configuration or input '
+                   '(no alloca, no run-time sized array)', floor=20)
     chk.rule('E7', "the caller's path/argv/envp are only read: no store through them, never passed as non-const, environment never mutated", floor=3)
     chk.explanation = (
         'All paths of the two interposers and everything reachable from them through the resolved call graph '
@@ -73,6 +75,8 @@ def run(ctx, entry_tu=ENTRY_TU, scope_label='production'):
     cg.require_resolved(within=set(cg.reachable([prog.func(n) for n in INTERPOSERS])))
     from rules.recursion import recursion_rule
     recursion_rule(ctx, prog, cg, common.checked_reach(cg, prog), 'E8')
+    from rules.C03 import stack_rule
+    stack_rule(ctx, prog, common.checked_reach(cg, prog), 'E9')
 
 
 def check_interposer(ctx, prog, cg, summ, F, name, roles):
